@@ -355,7 +355,12 @@ class LogicalLinkController(object):
                 msg = "local NFC-DEP RWT {0:.3f} contradicts LTO {1:.3f} sec"
                 log.warning(msg.format(mac.rwt, send_pax.lto*1E3))
 
-            rcvd_pax = pdu.decode(b"\x00\x40" + bytes(gb[3:]))
+            try:
+                rcvd_pax = pdu.decode(b"\x00\x40" + bytes(gb[3:]))
+            except pdu.DecodeError as error:
+                log.error("invalid llcp parameters in general bytes")
+                log.debug("{0!r}".format(error))
+                return False
 
             log.debug("SENT {0}".format(send_pax))
             log.debug("RCVD {0}".format(rcvd_pax))
